@@ -217,7 +217,13 @@ impl Fam {
             mdefs.push(format!("  (memory {})\n", p));
             mems.push(t);
         }
-        let _ = n_imp_m;
+        // feature "spare": the entity at index 0 of each space (it can never move, so references to it say least)
+        // gets NO reference anywhere when it is an import with further entities behind it: deleting it is then a
+        // clean deletion (nothing dangles) that shifts every other entity of the space down by one
+        let spare_on = feat(shape, "spare");
+        let spare_f: i64 = if spare_on && n_imp_f >= 1 && funcs.len() >= 2 { funcs[0] } else { -9 };
+        let spare_g: i64 = if spare_on && n_imp_g >= 2 { globs[0] } else { -9 }; // (gg / doff / eoff use the LAST imported global)
+        let spare_m: i64 = if spare_on && n_imp_m >= 1 && mems.len() >= 2 { mems[0] } else { -9 };
         let has_data = feat(shape, "data") && !mems.is_empty();
         // function bodies
         for j in 0..lf {
@@ -231,6 +237,9 @@ impl Fam {
                 s
             };
             for (i, &t) in funcs.iter().enumerate() {
+                if t == spare_f {
+                    continue;
+                }
                 let s = site(&mut fam, &mut sites, "f", t, "call");
                 b += &format!("    i32.const {} drop call {}\n", SITE as i64 + s, i);
                 if full && declared {
@@ -243,6 +252,9 @@ impl Fam {
                 }
             }
             for (i, &t) in globs.iter().enumerate() {
+                if t == spare_g {
+                    continue;
+                }
                 let s = site(&mut fam, &mut sites, "g", t, "global_get");
                 b += &format!("    i32.const {} drop global.get {} drop\n", SITE as i64 + s, i);
                 if full && i >= n_imp_g && i < n_imp_g + lg {
@@ -251,12 +263,18 @@ impl Fam {
                 }
             }
             for (i, &t) in mems.iter().enumerate() {
+                if t == spare_m {
+                    continue;
+                }
                 let s = site(&mut fam, &mut sites, "m", t, "mem_load");
                 b += &format!("    i32.const {} drop i32.const 0 i32.load {} drop\n", SITE as i64 + s, i);
                 if full {
                     {
                         // memory.copy carries two memory indices: one site per index (dst first)
                         for (j, &t2) in mems.iter().enumerate() {
+                            if t2 == spare_m {
+                                continue;
+                            }
                             let s1 = site(&mut fam, &mut sites, "m", t, "mem_copy_dst");
                             let s2 = site(&mut fam, &mut sites, "m", t2, "mem_copy_src");
                             b += &format!(
@@ -288,6 +306,20 @@ impl Fam {
                     }
                 }
             }
+            if full && feat(shape, "allmem") && mems.len() >= 2 {
+                // every memarg-carrying instruction the decoder knows (in unreachable code, where any operand
+                // types validate), spread over the memories whose index can move (all but memory 0)
+                let ops = crate::memops::discover();
+                let nm = mems.len();
+                let mem_of = |k: usize| (1 + k % (nm - 1)) as u32;
+                let lines = crate::memops::wat_lines(&ops, nm as u32, &mem_of);
+                b += "    unreachable\n";
+                for (k, line) in lines.iter().enumerate() {
+                    let t = mems[mem_of(k) as usize];
+                    let s = site(&mut fam, &mut sites, "m", t, &format!("op_{}", ops[k].name));
+                    b += &format!("    i32.const {} drop {} drop\n", SITE as i64 + s, line);
+                }
+            }
             b += "  )\n";
             w += &b;
         }
@@ -314,6 +346,9 @@ impl Fam {
         }
         if exports {
             for (i, &t) in funcs.iter().enumerate() {
+                if t == spare_f {
+                    continue;
+                }
                 let nm = format!("ef{}", t);
                 let s = fam.fresh_site();
                 fam.reg.site_export.insert(nm.clone(), s);
@@ -321,6 +356,9 @@ impl Fam {
                 w += &format!("  (export \"{}\" (func {}))\n", nm, i);
             }
             for (i, &t) in globs.iter().enumerate() {
+                if t == spare_g {
+                    continue;
+                }
                 let nm = format!("eg{}", t);
                 let s = fam.fresh_site();
                 fam.reg.site_export.insert(nm.clone(), s);
@@ -328,6 +366,9 @@ impl Fam {
                 w += &format!("  (export \"{}\" (global {}))\n", nm, i);
             }
             for (i, &t) in mems.iter().enumerate() {
+                if t == spare_m {
+                    continue;
+                }
                 let nm = format!("em{}", t);
                 let s = fam.fresh_site();
                 fam.reg.site_export.insert(nm.clone(), s);
@@ -373,6 +414,9 @@ impl Fam {
         if has_data {
             w += "  (data \"P\")\n";
             for (i, &t) in mems.iter().enumerate() {
+                if t == spare_m {
+                    continue;
+                }
                 let s = fam.fresh_site();
                 let content = format!("D{}", s).into_bytes();
                 fam.reg.site_data_mem.insert(content.clone(), s);
@@ -475,6 +519,9 @@ fn op_ref(op: &Operator) -> Option<(char, u32)> {
         Call { function_index } | RefFunc { function_index } | ReturnCall { function_index } => ('f', *function_index),
         GlobalGet { global_index } | GlobalSet { global_index } => ('g', *global_index),
         GlobalAtomicGet { global_index, .. } | GlobalAtomicSet { global_index, .. } => ('g', *global_index),
+        GlobalAtomicRmwAdd { global_index, .. } | GlobalAtomicRmwSub { global_index, .. } | GlobalAtomicRmwAnd { global_index, .. }
+        | GlobalAtomicRmwOr { global_index, .. } | GlobalAtomicRmwXor { global_index, .. } | GlobalAtomicRmwXchg { global_index, .. }
+        | GlobalAtomicRmwCmpxchg { global_index, .. } => ('g', *global_index),
         MemorySize { mem } | MemoryGrow { mem } | MemoryFill { mem } | MemoryDiscard { mem } => ('m', *mem),
         MemoryInit { mem, .. } => ('m', *mem),
         MemoryCopy { dst_mem, src_mem } => {
